@@ -436,6 +436,7 @@ def _upd_action(body, where):
     if isinstance(s, ast.Expr) and isinstance(s.value, ast.Call) and unparse(s.value.func) == 'old.set':
         c = s.value
         if len(c.args) == 1 and not c.keywords and unparse(c.args[0]) == 'new': return 'set'
+        if not c.args and len(c.keywords) == 1 and c.keywords[0].arg == 'v' and unparse(c.keywords[0].value) == 'new': return 'set'
         if len(c.args) == 1 and not c.keywords and isinstance(c.args[0], ast.Starred) and unparse(c.args[0].value) == 'new': return 'set*'
         if not c.args and len(c.keywords) == 1 and c.keywords[0].arg is None and unparse(c.keywords[0].value) == 'new': return 'set**'
     if isinstance(s, ast.If) and isinstance(s.test, ast.Call) and unparse(s.test.func) == 'isinstance' and unparse(s.test.args[0]) == 'old' and s.orelse:
